@@ -61,6 +61,15 @@ pub const SCENARIOS: &[(&str, u8)] = &[
     ("resize-grow-spare-capacity", F_CLONE),
     ("extend-spare-capacity", F_ITER),
     ("insert-remove-then-clone-spare", F_CLONE),
+    ("into_iter-for_each", F_CALLBACK),
+    ("into_iter-fold", F_CALLBACK),
+    ("into_iter-max_by_key", F_CALLBACK),
+    ("into_iter-rev-try_for_each", F_CALLBACK),
+    ("into_iter-skip-map-collect", F_CALLBACK),
+    ("drain-for_each", F_CALLBACK),
+    ("drain-rev-fold", F_CALLBACK),
+    ("splice-removed-for_each", F_CALLBACK),
+    ("drain_filter-fold", F_CALLBACK),
 ];
 
 struct TIter {
@@ -206,6 +215,94 @@ fn exec<'b>(sc: usize, b: &'b Bump, slot: &mut Option<BVec<'b, Tracked>>, held: 
         "truncate/drop-panics" => slot.as_mut().unwrap().truncate(2),
         "clear/drop-panics" => slot.as_mut().unwrap().clear(),
         "drop-vec/drop-panics" => drop(slot.take()),
+        "into_iter-for_each" => {
+            // the closure owns each item it is given; items it kept are the caller's
+            slot.take().unwrap().into_iter().for_each(|x| {
+                ledger::fuse_point(F_CALLBACK);
+                held.push(x);
+            });
+        }
+        "into_iter-fold" => {
+            let n = slot.take().unwrap().into_iter().fold(0u32, |acc, x| {
+                ledger::fuse_point(F_CALLBACK);
+                let k = x.key;
+                if k % 2 == 0 {
+                    held.push(x);
+                }
+                acc + k
+            });
+            std::hint::black_box(n);
+        }
+        "into_iter-max_by_key" => {
+            let m = slot.take().unwrap().into_iter().max_by_key(|x| {
+                ledger::fuse_point(F_CALLBACK);
+                x.key % 7
+            });
+            if let Some(x) = m {
+                held.push(x);
+            }
+        }
+        "into_iter-rev-try_for_each" => {
+            let _ = slot.take().unwrap().into_iter().rev().try_for_each(|x| {
+                ledger::fuse_point(F_CALLBACK);
+                if x.key % 5 == 4 {
+                    Err(x)
+                } else {
+                    held.push(x);
+                    Ok(())
+                }
+            });
+        }
+        "into_iter-skip-map-collect" => {
+            let kept: Vec<Tracked> = slot
+                .take()
+                .unwrap()
+                .into_iter()
+                .skip(1)
+                .step_by(2)
+                .map(|x| {
+                    ledger::fuse_point(F_CALLBACK);
+                    x
+                })
+                .collect();
+            held.extend(kept);
+        }
+        "drain-for_each" => {
+            let v = slot.as_mut().unwrap();
+            let hi = 6.min(v.len());
+            let lo = 1.min(hi);
+            v.drain(lo..hi).for_each(|x| {
+                ledger::fuse_point(F_CALLBACK);
+                held.push(x);
+            });
+        }
+        "drain-rev-fold" => {
+            let v = slot.as_mut().unwrap();
+            let hi = v.len();
+            let lo = 2.min(hi);
+            let n = v.drain(lo..hi).rev().fold(0u32, |acc, x| {
+                ledger::fuse_point(F_CALLBACK);
+                acc + x.key
+            });
+            std::hint::black_box(n);
+        }
+        "splice-removed-for_each" => {
+            let v = slot.as_mut().unwrap();
+            let hi = 4.min(v.len());
+            let lo = 1.min(hi);
+            v.splice(lo..hi, titer(extra, true)).for_each(|x| {
+                ledger::fuse_point(F_CALLBACK);
+                held.push(x);
+            });
+        }
+        "drain_filter-fold" => {
+            let v = slot.as_mut().unwrap();
+            let n = v.drain_filter(|x| x.key % 2 == 0).fold(0u32, |acc, x| {
+                ledger::fuse_point(F_CALLBACK);
+                acc + x.key
+            });
+            std::hint::black_box(n);
+        }
         "into_iter-drop/drop-panics" => {
             let mut it = slot.take().unwrap().into_iter();
             if let Some(x) = it.next() {
